@@ -75,13 +75,25 @@ func VerifH_v4_seq() {
 				m |= uint64(1) << i
 			}
 		} else {
-			b := vnd.Bytes("arg"+ls, 4)
-			av := uint32(b[0])<<24 | uint32(b[1])<<16 | uint32(b[2])<<8 | uint32(b[3])
+			var b []byte
+			isV4 := true
+			switch vnd.Pick("argform"+ls, 0, 2) {
+			case 0:
+				b = vnd.Bytes("arg"+ls, 4)
+			case 1:
+				b, isV4 = nil, false // no address at all
+			case 2:
+				b, isV4 = []byte{0x20, 0x01, 0x0d, 0xb8, 0, 0, 0, 0, 0, 0, 0, 0, 0, 0, 0, 1}, false // an IPv6 address
+			}
+			var av uint32
+			if isV4 {
+				av = uint32(b[0])<<24 | uint32(b[1])<<16 | uint32(b[2])<<8 | uint32(b[3])
+			}
 			vnd.Share("alloc4", a)
 			err := a.Free(net.IPNet{IP: net.IP(b), Mask: net.CIDRMask(32, 32)})
 			vnd.Unshare()
 			i := uint64(av - start)
-			held := vnd.And(vnd.And(av >= start, av <= end), m>>(i&63)&1 == 1)
+			held := vnd.And(isV4, vnd.And(vnd.And(av >= start, av <= end), m>>(i&63)&1 == 1))
 			if held {
 				vnd.Assert(err == nil, "C06 sequence: Free of an outstanding address succeeds")
 				m &^= uint64(1) << (i & 63)
@@ -94,6 +106,8 @@ func VerifH_v4_seq() {
 			same = vnd.And(same, a.bitmap.Test(uint(i)) == (m>>uint(i)&1 == 1))
 		}
 		vnd.Assert(same, "C04 sequence: the allocator's bookkeeping equals the set of outstanding addresses after every call")
+		vnd.Assert(same, "C05 sequence: the allocator accounts for exactly the addresses handed out and not freed (N addresses, never more than N outstanding)")
+		vnd.Assert(same, "C06 sequence: a Free changes the bookkeeping only by releasing the named outstanding address")
 	}
 	vnd.Cover("sequence")
 }
@@ -175,6 +189,8 @@ func VerifH_v6_seq() {
 			same = vnd.And(same, a.bitmap.Test(uint(i)) == (m>>uint(i)&1 == 1))
 		}
 		vnd.Assert(same, "C04 sequence: the allocator's bookkeeping equals the set of outstanding blocks after every call")
+		vnd.Assert(same, "C05 sequence: the allocator accounts for exactly the blocks handed out and not freed (N blocks, never more than N outstanding)")
+		vnd.Assert(same, "C06 sequence: a Free changes the bookkeeping only by releasing the named outstanding block")
 	}
 	vnd.Cover("sequence")
 }
